@@ -14,42 +14,156 @@ def register(E):
     def d(st, v):
         return E.deref(st, v)
 
+    def parse_template(tb):
+        """format_args! template of this toolchain: n<0x80 = literal of n bytes follows, 0xC0 = next argument with the
+        default format spec, 0x00 = end.  Anything else (width/precision/flags) is not modelled."""
+        pieces, i = [], 0
+        while i < len(tb):
+            c = tb[i]
+            if c == 0:
+                break
+            if c < 0x80:
+                pieces.append(('lit', tb[i + 1:i + 1 + c])); i += 1 + c
+            elif c == 0xC0:
+                pieces.append(('arg',)); i += 1
+            else:
+                raise Inconclusive('format template with explicit format spec: ' + repr(tb))
+        return pieces
+
     @model(r'^(?:std|core)::fmt::Arguments::(new|new_const|new_v1|new_v1_formatted|from_str|from_str_nonconst)$')
     def _(E, st, callee, a, m):
-        return [(T, Obj('FmtArgs', tuple(d(st, x) for x in a)))]
+        op = m.group(1)
+        if op in ('from_str', 'from_str_nonconst', 'new_const'):
+            s0 = d(st, a[0])
+            if isinstance(s0, Str):
+                return [(T, Obj('FmtArgs', ((('litstr', s0),), ())))]
+            if isinstance(s0, Seq) and len(s0.items) == 1:
+                return [(T, Obj('FmtArgs', ((('litstr', d(st, s0.items[0])),), ())))]
+        if op == 'new' and len(a) == 2:
+            tpl = d(st, a[0])
+            tb = tpl.conc() if isinstance(tpl, Str) else None
+            if tb is not None:
+                try:
+                    pieces = parse_template(tb)
+                except Inconclusive:
+                    return [(T, Obj('FmtArgs', (None, ())))]
+                args = d(st, a[1])
+                items = args.items if isinstance(args, Seq) else ()
+                return [(T, Obj('FmtArgs', (tuple(pieces), tuple(d(st, x) for x in items))))]
+        return [(T, Obj('FmtArgs', (None, ())))]
 
     @model(r'^(?:std|core)::fmt::rt::Argument::(new_display|new_debug|new_lower_hex|new_upper_hex)$')
     def _(E, st, callee, a, m):
         return [(T, Obj('FmtArg', (m.group(1), a[0])))]
 
-    @model(r'^(?:std|core)::fmt::Formatter::(write_str|write_fmt|debug_\w+|pad|write_char|pad_integral|alternate)$|^<std::fmt::Formatter as std::fmt::Write>::(write_str|write_fmt|write_char)$')
+    def render_value(E, st, kind, vref):
+        """[(cond, Str, state)] textual rendering of one Display argument"""
+        from .str_models import concat
+        v = d(st, vref)
+        if kind != 'new_display':
+            raise Inconclusive('formatting with ' + kind + ' is not modelled')
+        if isinstance(v, Str):
+            return [(T, v, st)]
+        if isinstance(v, Obj) and v.kind == 'String':
+            return [(T, v.data, st)]
+        if isinstance(v, Adt) and v.ty.endswith('Cow'):
+            return [(T, E.as_str(st, v), st)]
+        if isinstance(v, I):
+            c = v.conc()
+            if c is None:
+                raise Inconclusive('formatting a symbolic integer')
+            txt = chr(c) if v.w == 32 and not v.s else str(c)
+            return [(T, E.const_str(txt.encode()), st)]
+        if isinstance(v, (Adt, Obj)):
+            tn = E.type_name_of(st, v)
+            path = '<' + tn + ' as std::fmt::Display>::fmt'
+            fm = E.root_ref(st, Obj('StrFormatter', (E.const_str(b''),)))
+            arg = vref if isinstance(vref, Ref) else E.root_ref(st, v)
+            # &&T arguments: pass a reference to the value itself
+            while isinstance(arg, Ref) and isinstance(E.read_ref(st, arg), Ref):
+                arg = E.read_ref(st, arg)
+            outs = E.call_value(st, FnItem(path), [arg, fm])
+            res = []
+            for cond, o in outs:
+                if o.kind != 'ret':
+                    raise Inconclusive('Display impl panics: ' + str(o.value))
+                res.append((cond, E.read_ref(o.st, fm).data[0], o.st))
+            return res
+        raise Inconclusive('formatting of ' + repr(v))
+
+    def render_args(E, st, fa):
+        """[(cond, Str, state)] for a FmtArgs object"""
+        from .str_models import concat
+        pieces, args = fa.data
+        if pieces is None:
+            raise Inconclusive('formatting output needed but the template is not modelled')
+        acc = [(T, [], st)]
+        k = 0
+        for p in pieces:
+            if p[0] == 'lit':
+                acc = [(c, parts + [E.const_str(bytes(p[1]))], s0) for c, parts, s0 in acc]
+            elif p[0] == 'litstr':
+                acc = [(c, parts + [p[1]], s0) for c, parts, s0 in acc]
+            else:
+                arg = args[k]; k += 1
+                nxt = []
+                for c, parts, s0 in acc:
+                    for c2, sv, s2 in render_value(E, s0, arg.data[0], arg.data[1]):
+                        nxt.append((z3.simplify(z3.And(c, c2)), parts + [sv], s2))
+                acc = nxt
+        return [(c, concat(E, parts), s0) for c, parts, s0 in acc]
+    E.render_args = render_args
+
+    def adopt_eff(s_after, extra=None):
+        def eff(st2):
+            st2.heap = dict(s_after.heap)
+            for fid, fr in s_after.fmap.items():
+                if fid in st2.fmap: st2.fmap[fid].locs = dict(fr.locs)
+            if extra: return extra(st2)
+        return eff
+
+    @model(r'^(?:std|core)::fmt::Formatter::(write_str|write_fmt|debug_\w+|pad|write_char|pad_integral|alternate)$|^<std::fmt::Formatter as std::fmt::Write>::(write_str|write_fmt|write_char)$|^<std::string::String as std::fmt::Write>::(write_str|write_fmt|write_char)$')
     def _(E, st, callee, a, m):
-        op = m.group(1) or m.group(2)
+        op = [g for g in m.groups() if g][0]
         f = d(st, a[0])
-        if isinstance(f, Obj) and f.kind == 'StrFormatter' and op in ('write_str', 'pad', 'write_char', 'write_fmt'):
+        is_sf = isinstance(f, Obj) and f.kind == 'StrFormatter'
+        is_string = isinstance(f, Obj) and f.kind == 'String'
+        if (is_sf or is_string) and op in ('write_str', 'pad', 'write_char', 'write_fmt'):
             from .str_models import concat
+            cur = f.data[0] if is_sf else f.data
+            def mk(piece):
+                joined = concat(E, [cur, piece])
+                return Obj('StrFormatter', (joined,)) if is_sf else Obj('String', joined)
             if op == 'write_fmt':
-                piece = render_args(E, st, d(st, a[1]))
-            elif op == 'write_char':
+                res = []
+                for c, sv, s_after in render_args(E, st, d(st, a[1])):
+                    new = mk(sv)
+                    res.append((c, ok(UNIT), adopt_eff(s_after, lambda st2, new=new: E.store(st2, a[0], new))))
+                return res
+            if op == 'write_char':
                 c = d(st, a[1]).conc()
                 if c is None: raise Inconclusive('write_char symbolic')
                 piece = E.const_str(chr(c).encode())
             else:
                 piece = E.as_str(st, a[1])
-            new = Obj('StrFormatter', (concat(E, [f.data[0], piece]),))
+            new = mk(piece)
             def eff(st2): E.store(st2, a[0], new)
             return [(T, ok(UNIT), eff)]
         if op == 'alternate': return [(T, FALSE)]
         return [(T, ok(UNIT))]
 
-    def render_args(E, st, args):
-        """FmtArgs built by format_args!: (template bytes, [&args array]) in the compact 1.9x encoding is opaque;
-        supported only through E.fmt_hook (set by checks that need Display output)."""
-        raise Inconclusive('formatting output needed but no formatting model applies')
-    E.render_args = render_args
-
     @model(r'^(?:std|alloc)::fmt::format$|^std::fmt::format::format_inner$')
     def _(E, st, callee, a, m):
+        fa = d(st, a[0])
+        if isinstance(fa, Obj) and fa.kind == 'FmtArgs' and fa.data[0] is not None:
+            try:
+                res = []
+                for c, sv, s_after in render_args(E, st, fa):
+                    res.append((c, Obj('String', sv), adopt_eff(s_after)))
+                return res
+            except Inconclusive:
+                pass
+        st.note(('opaque-format', callee))
         return [(T, Obj('String', Str(E.fresh('fmt_bytes', z3.ArraySort(BV64, BV8)), bv(0), E.fresh_bv('fmt_len'), True, E.N)))]
 
     @model(r'^<(.+) as std::string::ToString>::to_string$')
